@@ -150,6 +150,15 @@ def r2(ctx):
             if g != {nm}:
                 okf = False
                 yield VIOL("C16-R2", "parse/field-feed/%s.%d" % (t["callee"].split("::")[-1], k), "argument %d of %s is fed from capture group(s) %s (expected `%s`)" % (k, t["callee"].split("::")[-1], sorted(g, key=str), nm), where=b.span_of_block(bi))
+    # no arithmetic on the parsed fields between the capture and the constructor (rounding / adjusting changes the instant)
+    for bi, t in ctor:
+        if t["callee"] in feed:
+            for k, a in enumerate(t["args"]):
+                sl = b.slice_op(a)
+                ar = [d for d in sl.assigns if d["stmt"]["rv"]["k"] == "binop" and re.match(r"(Add|Sub|Mul|Div|Rem)", d["stmt"]["rv"]["op"])]
+                if ar:
+                    okf = False
+                    yield VIOL("C16-R2", "parse/field-arith/%s.%d" % (t["callee"].split("::")[-1], k), "argument %d of %s is adjusted arithmetically (%s) after being parsed" % (k, t["callee"].split("::")[-1], ar[0]["stmt"]["rv"]["op"]), where=loc(ar[0]["stmt"]["span"]))
     if okf:
         yield PASS("C16-R2", "parse/field-feed", "from_ymd_opt(year, month, day); from_hms_nano_opt(hour, minute, second, frac) - each from its own capture group", [])
     # offset seconds
